@@ -6,6 +6,7 @@ CONSTANTS
   KeyOf <- Keys6
   FindPrevStrict = FALSE
   InitList <- NoInit
+  EarlyFindPrev = FALSE
   EraseAtObserved = FALSE
 INVARIANTS LinOK ListMatches FinalSorted
 CHECK_DEADLOCK FALSE
